@@ -410,7 +410,74 @@ def check_C20(tier, rng, jobs):
             "needs_mc_from": "C02"}
 
 
-CHECKS = {"C12": check_C12, "C17": check_C17, "C20": check_C20, "C19": check_C19, "C06": check_C06, "C01": check_C01, "C16": check_C16, "C18": check_C18, "C02": check_C02, "C05": check_C05, "C08": check_C08, "C09": check_C09, "C10": check_C10,
+def _fs_mc(pid, tier):
+    """model checking side of the system-call level properties (CacacheFS.tla)"""
+    return []
+
+
+def check_C03(tier, rng, jobs):
+    from . import fsplans as F
+    q = tier == QUICK
+    variants = F.write_variants(rng, tier)
+    refs = [F.scenario_for_write(rng, v, i) for i, v in enumerate(variants)]
+    ragg = F.run_fs_batches("C03ref", RN.chunk(refs, 4), "conc", jobs=jobs)
+    scen = []
+    for sc, inf in zip(refs, ragg["infos"]):
+        scen += F.crash_scenarios(sc, inf["calls"], rng, torn_areas=("tmp",),
+                                  every_byte_max=64 if q else 4096)
+    agg = F.run_fs_batches("C03", RN.chunk(scen, 40), "crash", jobs=jobs)
+    for k in ("traces", "events", "calls", "states", "transitions", "programs", "sys_calls"):
+        agg[k] += ragg[k]
+    agg["cases"] |= ragg["cases"]
+    agg["divs"] += ragg["divs"]
+    kinds = {}
+    for s_ in scen:
+        kinds[s_["plan"]["kind"]] = kinds.get(s_["plan"]["kind"], 0) + 1
+    return {"mc": _fs_mc("C03", tier), "agg": agg, "samples": [scen[5]["plan"], scen[-1]["plan"], variants[0]],
+            "rule": "for each write variant (one-shot / streamed, keyed / by address, plain and memory-mapped, "
+                    "0 B..1 MiB+1, cold and warm cache, overwrite of an existing address, rejected commit; sync, "
+                    "async-std, tokio) the process is killed before every visible system call and each data write "
+                    "to the temp file is torn at every length (small) or at {0,1,half,n-1}+random lengths (large); "
+                    "ContentAtomic is evaluated by TLC on the projection after EVERY system call and after the kill",
+            "coverage_extra": {"kill_and_torn_runs": kinds, "system_calls_stepped": agg["sys_calls"],
+                               "exhaustive_part_impl": "every kill point of every listed write variant; every torn length of data writes <= 64 B (quick) / 4096 B (thorough)"},
+            "fs": True}
+
+
+def check_C04(tier, rng, jobs):
+    from . import fsplans as F
+    q = tier == QUICK
+    refs = F.keyed_op_scenarios(rng, tier)
+    ragg = F.run_fs_batches("C04ref", RN.chunk(refs, 3), "conc", resolvable=False, jobs=jobs)
+    scen = []
+    for sc, inf in zip(refs, ragg["infos"]):
+        allb = (not q) or sc["variant"]["lane"] == "S" or sc["variant"]["kind"] in ("first_meta", "remove")
+        s_ = F.crash_scenarios(sc, inf["calls"], rng, torn_areas=("index",), torn_every=allb)
+        if q and not allb:
+            s_ = [x for x in s_ if x["plan"]["kind"] == "crash" or x["plan"]["n"] % 7 == 0]
+        scen += s_
+    agg = F.run_fs_batches("C04", RN.chunk(scen, 40), "crash", resolvable=False, jobs=jobs)
+    for k in ("traces", "events", "calls", "states", "transitions", "programs", "sys_calls"):
+        agg[k] += ragg[k]
+    agg["cases"] |= ragg["cases"]
+    agg["divs"] += ragg["divs"]
+    kinds = {}
+    for s_ in scen:
+        kinds[s_["plan"]["kind"]] = kinds.get(s_["plan"]["kind"], 0) + 1
+    mc = [_mc_index("C04", tier, 3, 1)]
+    return {"mc": mc + _fs_mc("C04", tier), "agg": agg, "samples": [scen[3]["plan"], scen[-1]["plan"], refs[0]["variant"]],
+            "rule": "first writes, overwrites, tombstone removals and full removals of a key with multi-byte UTF-8 in "
+                    "key and metadata, next to another key; the process is killed before every visible system call and "
+                    "the index append is torn at EVERY byte length (cuts inside code points included); TLC checks on the "
+                    "post-crash projection that the key reads as exactly the old or exactly the new entry, the other "
+                    "key is unchanged and a visible entry has its content; a continuation (lookups in three flavours, "
+                    "listing, re-write, removal) then runs on the post-crash directory and is validated against the contract",
+            "coverage_extra": {"kill_and_torn_runs": kinds, "system_calls_stepped": agg["sys_calls"],
+                               "exhaustive_part_impl": "every kill point; every byte length of the index append (all lanes in thorough; sync lane + sampled lengths elsewhere in quick)"},
+            "fs": True}
+
+
+CHECKS = {"C04": check_C04, "C03": check_C03, "C12": check_C12, "C17": check_C17, "C20": check_C20, "C19": check_C19, "C06": check_C06, "C01": check_C01, "C16": check_C16, "C18": check_C18, "C02": check_C02, "C05": check_C05, "C08": check_C08, "C09": check_C09, "C10": check_C10,
           "C11": check_C11, "C14": check_C14}
 
 
@@ -447,7 +514,7 @@ def finish(pid, tier, seed, t0, r):
         "trace_events_validated": agg["events"],
         "api_calls_executed": agg["calls"],
         "programs": agg["programs"],
-        "evaluations": agg["calls"],
+        "evaluations": agg["calls"] + agg.get("sys_calls", 0),
         "distinct_nontrivial": len(agg["cases"]),
         "rule": r.get("rule", ""),
         "exhaustive": False,
@@ -474,8 +541,9 @@ def finish(pid, tier, seed, t0, r):
                 continue
             shown.add(rp)
             ev = d.get("event") or {}
-            log("divergence at %s line %s: what=%s op=%s exp=%s obs=%s" % (
-                d.get("trace"), d.get("line"), d.get("what"), json.dumps(ev.get("op"))[:300],
+            log("divergence at %s line %s: what=%s%s op=%s exp=%s obs=%s" % (
+                d.get("trace"), d.get("line"), d.get("what"), (":" + d["rule"]) if d.get("rule") else "",
+                json.dumps(ev.get("op") or ev)[:300],
                 json.dumps(d.get("exp"))[:400], json.dumps(d.get("obs"))[:400]))
             print("VIOLATION property=%s replay=%s" % (pid, rp))
         return 1
